@@ -12,6 +12,21 @@ CLAIMED = {
         text="Deductive proof, per storage size N<=16, that all 12 accessor entry points of __BindgenBitfieldUnit equal the little-endian bit-vector model (value and frame) for every offset, width, storage content and value; lemmas (round trip, disjoint fields, constructor) proved over the contracts only. Known finding F1 on the region (off%8)+w>64.",
         note="Trusted: Kani/CBMC; the u128 reference model; rule L1 (const generics lifted to value parameters); debug_assert!s taken as preconditions (established by bitfields_to_allocation_units, unverified); host little-endian/64-bit; accessor glue in codegen/mod.rs (sign extension) unverified.",
         ref="DESIGN.md §3 C03"),
+    "C02": dict(
+        technique="Verus contracts on mechanically extracted real functions (struct_layout.rs, ir/layout.rs, helpers.rs): representation invariant, placement and size theorems, blob exactness",
+        text="Deductive proof (Verus/Z3, unbounded) on the extracted text of the layout tracker: align_to is the least multiple; Layout::for_size picks the largest dividing power of two; blob/known_type_for_size emit a type of exactly the requested size and alignment; the tracker invariant is preserved by every operation; PLACEMENT THEOREM: in a plain struct the padding returned by saw_field_with_layout puts the next field at the byte offset clang reports; SIZE THEOREM for pad_struct; requires_explicit_align. Found and repaired F2/F4.",
+        note="Trusted: Verus/Z3; extraction rules R1-R10; Rust-reference layout rules for emitted type tokens (env); libclang numbers; uninterpreted context reads. Unverified: CompInfo::codegen call order and repr selection, packed/union/bit-field-adjacent placement (invariant+safety only), primitive type mapping, pad_struct sub-region with 8-aligned inexact padding.",
+        ref="DESIGN.md §3 C02"),
+    "C10": dict(
+        technique="Verus contracts on extracted helpers::blob / Layout::known_type_for_size / for_size_internal (shared with C02)",
+        text="Deductive proof that the opaque blob emitted for any layout libclang can report (size multiple of alignment, alignment 0 or a power of two) has exactly that size and alignment, on the ffi-safe and the padding path, including len==1 and align>4. Only the opaque-blob half of C10.",
+        note="Trusted: as C02. Unverified: blocklist tests, IsOpaque, tracing cut-off, trait vouching (IR/regex-bound).",
+        ref="DESIGN.md §3 C10"),
+    "C12": dict(
+        technique="Verus/Kani safety obligations (overflow, underflow, unwrap, callee preconditions, termination) of every function under contract; concrete Kani witnesses for from_str",
+        text="Deductive proof of panic-freedom and termination for the functions under contract (layout tracker, Layout, blob, ...), under stated preconditions; regression guards for the repaired defects F2 (add_tail_padding underflow) and F3 (from_str underflow, concrete witness harnesses = bounded).",
+        note="Trusted: as C02. Narrow: the hundreds of unwrap/expect sites that depend on libclang AST shapes, recursion depth and Builder::generate error paths are not under contract.",
+        ref="DESIGN.md §3 C12"),
     "C14": dict(
         technique="Kani function contracts on the real features.rs over the full u64 version domain; CBMC, complete",
         text="Deductive proof over every (minor, patch) in u64 x u64, nightly, and all editions that RustFeatures::new equals the release-notes gating table, is monotone in the version, ignores the patch level; edition availability and latest_edition; RustTarget::stable rejects exactly minor<51; LATEST/EARLIEST constants.",
@@ -31,14 +46,11 @@ NOT_APPLICABLE = {
 }
 
 PENDING = {
-    "C02": "claimed in DESIGN.md; check not built yet in this commit",
     "C04": "claimed narrowly in DESIGN.md; check not built yet in this commit",
     "C05": "claimed in DESIGN.md; check not built yet in this commit",
     "C07": "claimed narrowly in DESIGN.md; check not built yet in this commit",
     "C08": "claimed in DESIGN.md; check not built yet in this commit",
     "C09": "claimed narrowly in DESIGN.md; check not built yet in this commit",
-    "C10": "claimed narrowly in DESIGN.md; check not built yet in this commit",
-    "C12": "claimed narrowly in DESIGN.md; check not built yet in this commit",
 }
 
 
